@@ -66,6 +66,8 @@ class Profile:
         self.hdr_variants = False
         self.pin_origin = True          # always give file_set_number and creation_time
         self.upper_names = False        # names restricted to [A-Z0-9_-]+
+        self.number_pool = None         # draw every number from this small pool (C14: equal-but-distinct values)
+        self.text_pool = None
         self.full_attrs = False         # channel dimension/element_limit/axis and all frame attributes too
         self.origin_sets_differ = False  # origins of one logical file may sit in differently named ORIGIN sets
         self.lf_distinct_sets = True    # with several logical files, every logical file uses its own set names
@@ -97,6 +99,8 @@ def draw_name(draw, profile, used=None):
 
 
 def draw_text(draw, profile, max_len=None):
+    if profile.text_pool:
+        return draw(st.sampled_from(profile.text_pool))
     if profile.long_text and draw(st.integers(0, 9)) == 0:
         n = draw(st.integers(100, profile.long_text))
         a, b = draw(st.integers(1, 90)), draw(st.integers(0, 90))
@@ -105,6 +109,8 @@ def draw_text(draw, profile, max_len=None):
 
 
 def draw_ident(draw, profile):
+    if profile.text_pool:
+        return draw(st.sampled_from(profile.text_pool))
     if profile.upper_names:
         return draw(st.text(alphabet=UPPER, min_size=1, max_size=16))
     return draw(st.text(alphabet=PRINTABLE, min_size=0, max_size=20))
@@ -114,6 +120,14 @@ FLOATS = st.one_of(st.floats(allow_nan=False, allow_infinity=False, width=64),
                    st.floats(-1e6, 1e6), st.sampled_from([0.0, -0.0, 1.0, 0.5, -1.5, 1e300, 5e-324, 2.0 ** 53 + 2]),
                    st.integers(-2 ** 31, 2 ** 31 - 1).map(float))
 NUMBERS = st.one_of(FLOATS, st.integers(-10 ** 6, 10 ** 6), st.integers(-2 ** 31, 2 ** 31 - 1))
+
+
+def nums(p):
+    return st.sampled_from(p.number_pool) if p.number_pool else NUMBERS
+
+
+def floats(p):
+    return st.sampled_from(p.number_pool) if p.number_pool else FLOATS
 
 
 def draw_datetime(draw):
@@ -205,8 +219,8 @@ def draw_attr_value(draw, a, g, op=None):
     if k in ('num', 'fdoubl'):
         if a.nested and draw(st.booleans()):
             rows, cols = draw(st.integers(1, 3)), draw(st.integers(1, 3))
-            return [[draw(NUMBERS) for _ in range(cols)] for _ in range(rows)], True
-        return many(lambda: draw(NUMBERS)), True
+            return [[draw(nums(p)) for _ in range(cols)] for _ in range(rows)], True
+        return many(lambda: draw(nums(p))), True
     if k == 'int':
         return many(lambda: draw(st.integers(-2 ** 31, 2 ** 31 - 1))), True
     if k == 'uvari':
@@ -230,7 +244,7 @@ def draw_attr_value(draw, a, g, op=None):
     if k == 'dtnum':
         if draw(st.booleans()):
             return draw_datetime(draw), True
-        return draw(NUMBERS), True
+        return draw(nums(p)), True
     if k == 'generic':
         mode = draw(st.integers(0, 2))
         if mode == 0:
@@ -238,7 +252,7 @@ def draw_attr_value(draw, a, g, op=None):
         elif mode == 1:
             elem = lambda: draw(st.integers(-2 ** 31, 2 ** 31 - 1))
         else:
-            elem = lambda: draw(FLOATS)
+            elem = lambda: draw(floats(p))
         if a.nested and draw(st.integers(0, 3)) == 0:
             rows, cols = draw(st.integers(1, 3)), draw(st.integers(1, 3))
             return [[elem() for _ in range(cols)] for _ in range(rows)], True
@@ -486,7 +500,7 @@ def draw_meta(draw, kind, g):
             is_time = dom in (None, 'TIME') and draw(st.booleans())
             for key in ('maximum', 'minimum'):
                 if mode == 3 or draw(st.booleans()):
-                    v = draw_datetime(draw) if is_time else draw(NUMBERS)
+                    v = draw_datetime(draw) if is_time else draw(nums(p))
                     u = draw_units(draw, p) if not is_time else None
                     op['attrs'][key] = {'v': v, 'u': u, 'r': draw_route(draw, p, u is not None)}
     elif kind in ('parameter', 'computation'):
@@ -505,7 +519,7 @@ def draw_meta(draw, kind, g):
             elif mode == 1:
                 elem = lambda: draw(st.integers(-2 ** 31, 2 ** 31 - 1))
             else:
-                elem = lambda: draw(FLOATS)
+                elem = lambda: draw(floats(p))
             if nz and draw(st.integers(0, 2)) == 0:
                 cols = draw(st.integers(1, 3))
                 v = [[elem() for _ in range(cols)] for _ in range(nv)]
@@ -539,7 +553,7 @@ def draw_meta(draw, kind, g):
         for key in ('coefficients', 'references', 'plus_tolerances', 'minus_tolerances'):
             if draw(st.booleans()):
                 u = draw_units(draw, p)
-                op['attrs'][key] = {'v': [draw(NUMBERS) for _ in range(n)], 'u': u,
+                op['attrs'][key] = {'v': [draw(nums(p)) for _ in range(n)], 'u': u,
                                     'r': draw_route(draw, p, u is not None)}
     elif kind == 'calibration_measurement':
         op['attrs'] = draw_attrs(draw, kind, g, exclude=('dimension', 'axis', 'maximum_deviation',
@@ -549,8 +563,8 @@ def draw_meta(draw, kind, g):
         cols = draw(st.integers(0, 3))
         for key in ('maximum_deviation', 'standard_deviation', 'standard', 'plus_tolerance', 'minus_tolerance'):
             if draw(st.booleans()):
-                v = [draw(NUMBERS) for _ in range(n)] if cols == 0 else \
-                    [[draw(NUMBERS) for _ in range(cols)] for _ in range(n)]
+                v = [draw(nums(p)) for _ in range(n)] if cols == 0 else \
+                    [[draw(nums(p)) for _ in range(cols)] for _ in range(n)]
                 u = draw_units(draw, p)
                 op['attrs'][key] = {'v': v, 'u': u, 'r': draw_route(draw, p, u is not None)}
         if cols:
@@ -558,7 +572,7 @@ def draw_meta(draw, kind, g):
         for key in ('measurement', 'reference'):
             if draw(st.integers(0, 2)) == 0:
                 u = draw_units(draw, p)
-                op['attrs'][key] = {'v': [draw(NUMBERS) for _ in range(draw(st.integers(1, 4)))], 'u': u,
+                op['attrs'][key] = {'v': [draw(nums(p)) for _ in range(draw(st.integers(1, 4)))], 'u': u,
                                     'r': draw_route(draw, p, u is not None)}
     elif kind == 'axis':
         op['attrs'] = draw_attrs(draw, kind, g)
